@@ -43,6 +43,23 @@ Proof.
   apply eqb_prop. apply H. now apply in_strings_upto.
 Qed.
 
+(* Encoder.decode undoes Encoder.encode (Text.unescape after Text.escape) exactly
+   on the strings without an entity reference; length <= 4 over the same alphabet *)
+Definition decode_undoes_encode (s : str) : bool := str_eqb (decode (encode s)) s.
+
+Lemma decode_sweep :
+  forallb (fun s => Bool.eqb (decode_undoes_encode s) (negb (has_entity_ref s)))
+          (strings_upto 4 alphabet_text) = true.
+Proof. vm_compute. reflexivity. Qed.
+
+Lemma decode_encode_bounded_l : forall s,
+  (length s <= 4)%nat -> (forall c, In c s -> In c alphabet_text) ->
+  decode_undoes_encode s = negb (has_entity_ref s).
+Proof.
+  intros s Hl Hc. pose proof decode_sweep as H. rewrite forallb_forall in H.
+  apply eqb_prop. apply H. now apply in_strings_upto.
+Qed.
+
 (* p colon amp semicolon l t lt TAB LF CR quot, with p bound to urn:a which the normaliser calls ns0 *)
 Definition alphabet_attr : list N := [112; 58; 38; 59; 108; 116; 60; 9; 10; 13; 34].
 Definition sweep_scope : list (str * str) := [([112], [117; 114; 110; 58; 97])].
